@@ -323,6 +323,65 @@ def mk_two_copies(name, lo, width=2.509):
     return body
 
 
+def mk_coupling_probe_far_part(q1, q2, pat_i):
+    """the coupling probe compares two folding energies of the WHOLE conformation (default and swapped state).  A far part adds
+    a term that depends on the pH alone -- modelled as an arbitrary function of pH (fresh value per call, equal pH => equal value).
+    The verdict (coupling factor) must be the same with and without that term, for every such function, every determinant
+    pattern and every threshold: the far part has to cancel out of the difference."""
+    def body(ctx):
+        import propka.coupled_groups as CG
+        from .c15 import PATTERNS, _fill
+        from .c02 import mk_group as mkg
+        vals = {}
+
+        class Memo:
+            """symbolic inputs shared by the two worlds"""
+            native = ctx.native
+
+            def real(self, name, lo, hi):
+                if name not in vals:
+                    vals[name] = ctx.real(name, lo, hi)
+                return vals[name]
+        memo = Memo()
+        rof = ctx.choice('return_on_fail', [True, False])
+
+        def world(with_far_part):
+            p = H.params(fresh=True)
+            nccg = CG.NonCovalentlyCoupledGroups()
+            nccg.parameters = p
+            g1 = mkg('COOGroup' if q1 < 0 else 'LYSGroup', 'ASP' if q1 < 0 else 'LYS', 10, 'CG' if q1 < 0 else 'NZ', q=q1, p=p)
+            g2 = mkg('COOGroup' if q2 < 0 else 'HISGroup', 'GLU' if q2 < 0 else 'HIS', 20, 'CD' if q2 < 0 else 'CG', q=q2, p=p)
+            g3 = mkg('TYRGroup', 'TYR', 30, 'OH', q=-1, p=p)
+            bb = mkg('BBNGroup', 'ALA', 31, 'N', q=0, p=p)
+            bb.titratable = False
+            pat = PATTERNS[pat_i]
+            _fill(memo, g1, 'g1', [g2, g3, bb], pat[0])
+            _fill(memo, g2, 'g2', [g1, g3, bb], pat[1])
+            p.min_interaction_energy = memo.real('min_interaction_energy', 0, 2)
+            p.max_free_energy_diff = memo.real('max_free_energy_diff', 0.1, 3)
+            p.min_swap_pka_shift = memo.real('min_swap_pka_shift', 0, 3)
+            p.max_intrinsic_pka_diff = memo.real('max_intrinsic_pka_diff', 0.1, 5)
+            ctx.claim('pH-of-the-shipped-configuration-is-variable', p.pH == 'variable')
+            calls = []
+
+            def energy(ph=None, reference=None):
+                i = len(calls)
+                near = memo.real('near_part_energy_%d' % i, -20, 20)
+                far = memo.real('far_part_energy_%d' % i, -20, 20)
+                for (ph0, far0) in calls:
+                    ctx.assume(Implies(eq(ph0, ph), eq(far0, far)))       # the far part's energy is a function of pH
+                calls.append((ph, far))
+                return near + far if with_far_part else near
+            data = nccg.is_coupled_protonation_state_probability(g1, g2, energy, return_on_fail=rof)
+            return data, len(calls)
+        d0, n0 = world(False)
+        d1, n1 = world(True)
+        ctx.claim('same-number-of-energy-evaluations', n0 == n1)
+        ctx.claim('coupling-verdict-independent-of-the-far-part', eq(d0['coupling_factor'], d1['coupling_factor']),
+                  detail='%r vs %r' % (d0.get('coupling_factor'), d1.get('coupling_factor')))
+    return body
+
+
 def mk_two_copies_text(name, at_origin=False, raw=False):
     """as O3, the far copy written into the PDB text itself (so that the coordinate columns are read, all 8 of them):
     offsets that make the fields 8 characters wide, along each axis"""
@@ -456,6 +515,15 @@ def obligations(tier):
                                   bounds='%s (with the program\'s own hydrogens, keep-protons) plus a copy in chain B shifted along x so that the gap between nearest atoms is a real number in [%g, %g]' % (name, lo, lo + width),
                                   claim_doc='no exception; every group of either copy has the desolvation, pKa and determinants of the single-copy run',
                                   max_paths=5000, wall_s=170 if tier == 'quick' else 1500, shards=6 if tier == 'quick' else 1))
+    for q1, q2 in ((-1, -1), (1, 1), (-1, 1)):
+        for pat_i in ([0, 1] if tier == 'quick' else [0, 1, 2, 3]):
+            obs.append(Obligation('O2-coupling-probe-far-part-cancels[%+d%+d,pattern %d]' % (q1, q2, pat_i), mk_coupling_probe_far_part(q1, q2, pat_i),
+                                  code=['propka/coupled_groups.py:NonCovalentlyCoupledGroups.is_coupled_protonation_state_probability', 'propka/coupled_groups.py:NonCovalentlyCoupledGroups.swap_interactions',
+                                        'propka/coupled_groups.py:NonCovalentlyCoupledGroups.get_free_energy_diff_factor'],
+                                  bounds='two groups (charges %+d, %+d) with symbolic model pKa, desolvation and determinants (pattern %d of 4), the four coupling thresholds symbolic, pH "variable" as shipped; '
+                                         'the folding energy handed to the probe = symbolic near-part value per call + an arbitrary function of pH for the far part' % (q1, q2, pat_i),
+                                  shims=['energy_method -> symbolic near-part value per call (+ far-part value, a function of pH)'],
+                                  claim_doc='the coupling factor is the same with and without the far-part term', max_paths=3000, wall_s=170 if tier == 'quick' else 900))
     for q in ((-1, -1), (-1, 1)):
         obs.append(Obligation('O2-iterative-clusters-two-ligand-copies[%+d%+d]' % q, mk_iterative(q, q, hetero=True), code=obs[-1].code if obs else [],
                               bounds='two copies of one ligand in one chain (same atom names, different residue numbers: equal labels), one interaction each, all values symbolic',
